@@ -217,9 +217,13 @@ Record variant := mkVar {
   v_sel : bool;    (* store path of query / keyrangevalues selects fields like the memory path *)
   v_range : bool;  (* store path of keyrange / keyrangevalues selects keys numerically *)
   v_meta : bool;   (* Initialize loads the JSON schema bytes like the other two metadata *)
+  v_ftime : bool;  (* fieldtimes is computed from the annotations (memory and store path) *)
+  v_schdel : bool; (* DELETE json_schema also drops the compiled schema *)
 }.
-Definition repaired : variant := mkVar true true true true true true.
-Definition shipped : variant := mkVar false false false false false false.
+Definition repaired : variant := mkVar true true true true true true true true.
+(* repairs 1-6 only: /repo after the first six fix: commits *)
+Definition interim : variant := mkVar true true true true true true false false.
+Definition shipped : variant := mkVar false false false false false false false false.
 
 (* memstore.go:173 *)
 Definition addBodyID (ids : list N) (b : N) : res (list N) :=
@@ -251,6 +255,7 @@ Record memdb := mkMem {
   m_ids : list N;
   m_fields : fcounts;
   m_ftimes : list (bytes * bytes);
+  m_ftdirty : bool;                (* fieldTimes must be recomputed before it is served (repair 7) *)
 }.
 Record vstore := mkVS {
   s_data : ndata;
@@ -259,6 +264,7 @@ Record vstore := mkVS {
 Record state := mkSt {
   st_mem : memdb;                  (* dbs.head["master"] *)
   st_mmeta : list (N * bytes);     (* d.metadata *)
+  st_compiled : option bytes;      (* the schema d.compiledSchema was compiled from *)
   st_head : vstore;                (* leaf of master *)
   st_parents : list vstore;        (* committed ancestors, nearest first *)
   st_locked : bool;
@@ -267,43 +273,62 @@ Definition mget := @aget N bytes N.eqb.
 Definition mset := @aset N bytes N.eqb.
 Definition mdel := @adel N bytes N.eqb.
 
-Definition empty_mem : memdb := mkMem [] [] [] [].
-Definition init_state : state := mkSt empty_mem [] (mkVS [] []) [] false.
+(* type Schema (iota), read from neuronjson.go into Gen/Consts.v *)
+Definition k_json_schema : N := n_nj_JSONSchema.
+Definition k_schema : N := n_nj_NeuSchema.
+Definition k_schema_batch : N := n_nj_NeuSchemaBatch.
 
-(* fieldTimes[root] = newData[field].(string): a non-string value panics *)
-Fixpoint set_ftimes (o : obj) (ft : list (bytes * bytes)) : res (list (bytes * bytes)) :=
+Definition empty_mem : memdb := mkMem [] [] [] [] false.
+Definition init_state : state := mkSt empty_mem [] None (mkVS [] []) [] false.
+
+(* fieldTimes[root] = newData[field] for the string-valued *_time fields *)
+Fixpoint set_ftimes (o : obj) (ft : list (bytes * bytes)) : list (bytes * bytes) :=
   match o with
-  | [] => Ok ft
+  | [] => ft
   | (f, v) :: r =>
       if is_timef f then
         match v with
         | JStr s => set_ftimes r (@aset bytes bytes bytes_eqb (strip5 f) s ft)
-        | _ => Panic
+        | _ => set_ftimes r ft
         end
       else set_ftimes r ft
   end.
+
+(* a *_user / *_time field must be a string (or null) *)
+Definition bad_stamp (o : obj) : bool :=
+  existsb (fun p => is_meta (fst p) && negb (is_null (snd p)) && match snd p with JStr _ => false | _ => true end) o.
 
 (* storeAndUpdate (neuronjson.go:1416) on the head version *)
 Definition storeAndUpdate (V : variant) (s : state) (id : N) (new0 : obj)
            (user : bytes) (conds : list bytes) (replace : bool) (timeStr : bytes) : res state :=
   let orig := nget id (s_data (st_head s)) in
   if omem (fuser s_bodyid) new0 || omem (ftime s_bodyid) new0 then Err
+  else if bad_stamp new0 then Err
   else
     let '(orig1, new') := updateJSON user conds replace timeStr orig new0 in
     let m := st_mem s in
     let dec_fields := match (if v_cnt V then orig else orig1) with Some o => dom o | None => [] end in
     let fields := fold_left (cadd 1) (dom new') (fold_left (cadd (-1)) dec_fields (m_fields m)) in
-    res_bind (set_ftimes new' (m_ftimes m)) (fun ft =>
+    let ft := if v_ftime V then m_ftimes m else set_ftimes new' (m_ftimes m) in
     res_bind (addBodyID (m_ids m) id) (fun ids =>
-      Ok (mkSt (mkMem (nset id new' (m_data m)) ids fields ft) (st_mmeta s)
+      Ok (mkSt (mkMem (nset id new' (m_data m)) ids fields ft (v_ftime V || m_ftdirty m)) (st_mmeta s) (st_compiled s)
                (mkVS (nset id new' (s_data (st_head s))) (s_meta (st_head s)))
-               (st_parents s) (st_locked s)))).
+               (st_parents s) (st_locked s))).
 
 Definition max_u64 : N := 18446744073709551615.
 
-(* PutData (neuronjson.go:1470): [valid] is the JSON-schema validator's verdict *)
-Definition putData (V : variant) (s : state) (key : N) (body : list (bytes * json)) (valid : bool)
+(* getJSONSchema on the open head: the compiled schema if there is one, else the stored bytes *)
+Definition schema_in_force (s : state) : option bytes :=
+  match st_compiled s with Some b => Some b | None => mget k_json_schema (s_meta (st_head s)) end.
+
+(* PutData (neuronjson.go:1470): [vd] is the JSON-schema validator's verdict on the body for each
+   schema that rejects it (oracle; a schema not listed accepts, one that does not compile too) *)
+Definition putData (V : variant) (s : state) (key : N) (body : list (bytes * json)) (vd : list (bytes * bool))
            (user : bytes) (conds : list bytes) (replace : bool) (timeStr : bytes) : res state :=
+  let valid := match schema_in_force s with
+               | Some sch => match @aget bytes bool bytes_eqb sch vd with Some b => b | None => true end
+               | None => true
+               end in
   if st_locked s then Err
   else if negb (nonempty user) then Err
   else if key =? 0 then Err
@@ -327,9 +352,10 @@ Definition deleteData (V : variant) (s : state) (id : N) : res state :=
     match nget id (m_data m) with
     | Some o =>
         res_bind (deleteBodyID V (m_ids m) id) (fun ids =>
-          Ok (mkSt (mkMem (ndel id (m_data m)) ids (fold_left (cadd (-1)) (dom o) (m_fields m)) (m_ftimes m))
-                   (st_mmeta s) st' (st_parents s) (st_locked s)))
-    | None => Ok (mkSt m (st_mmeta s) st' (st_parents s) (st_locked s))
+          Ok (mkSt (mkMem (ndel id (m_data m)) ids (fold_left (cadd (-1)) (dom o) (m_fields m)) (m_ftimes m)
+                          (v_ftime V || m_ftdirty m))
+                   (st_mmeta s) (st_compiled s) st' (st_parents s) (st_locked s)))
+    | None => Ok (mkSt m (st_mmeta s) (st_compiled s) st' (st_parents s) (st_locked s))
     end.
 
 (* ---------- reload: Initialize / initMemoryDB / loadMemDB / initFieldTimes ---------- *)
@@ -348,9 +374,9 @@ Fixpoint bytes_ltb (a b : bytes) : bool :=
   end.
 Definition bytes_leb (a b : bytes) : bool := negb (bytes_ltb b a).
 
-Fixpoint init_ftimes_obj (o : obj) (ft : list (bytes * bytes)) : res (list (bytes * bytes)) :=
+Fixpoint init_ftimes_obj (o : obj) (ft : list (bytes * bytes)) : list (bytes * bytes) :=
   match o with
-  | [] => Ok ft
+  | [] => ft
   | (f, v) :: r =>
       if is_timef f then
         match v with
@@ -360,29 +386,22 @@ Fixpoint init_ftimes_obj (o : obj) (ft : list (bytes * bytes)) : res (list (byte
             | None => init_ftimes_obj r (@aset bytes bytes bytes_eqb root t ft)
             | Some old => init_ftimes_obj r (if bytes_ltb old t then @aset bytes bytes bytes_eqb root t ft else ft)
             end
-        | _ => Panic
+        | _ => init_ftimes_obj r ft
         end
       else init_ftimes_obj r ft
   end.
-Fixpoint init_ftimes (d : ndata) (ft : list (bytes * bytes)) : res (list (bytes * bytes)) :=
-  match d with
-  | [] => Ok ft
-  | (_, o) :: r => res_bind (init_ftimes_obj o ft) (init_ftimes r)
-  end.
+(* the newest *_time per field over a set of annotations *)
+Definition ft_of (d : ndata) : list (bytes * bytes) :=
+  fold_left (fun ft p => init_ftimes_obj (snd p) ft) d [].
 
 (* field counters as computed by a scan: addAnnotation on load, getFieldCounts on the store path *)
 Definition scan_counts (d : ndata) : fcounts :=
   fold_left (fun acc p => fold_left (cadd 1) (dom (snd p)) acc) d [].
 
-Definition loadMemDB (d : ndata) : res memdb :=
+Definition loadMemDB (d : ndata) : memdb :=
   let data := fold_left (fun acc p => nset (fst p) (snd p) acc) d [] in
-  res_bind (init_ftimes data []) (fun ft =>
-    Ok (mkMem data (sort_ids (map fst d)) (scan_counts d) ft)).
+  mkMem data (sort_ids (map fst d)) (scan_counts d) (ft_of data) false.
 
-(* type Schema (iota), read from neuronjson.go into Gen/Consts.v *)
-Definition k_json_schema : N := n_nj_JSONSchema.
-Definition k_schema : N := n_nj_NeuSchema.
-Definition k_schema_batch : N := n_nj_NeuSchemaBatch.
 
 Definition load_meta (V : variant) (locked : bool) (sm : list (N * bytes)) : list (N * bytes) :=
   let m0 := if v_meta V || negb locked
@@ -391,15 +410,15 @@ Definition load_meta (V : variant) (locked : bool) (sm : list (N * bytes)) : lis
   let m1 := match mget k_schema sm with Some b => mset k_schema b m0 | None => m0 end in
   match mget k_schema_batch sm with Some b => mset k_schema_batch b m1 | None => m1 end.
 
-Definition reload (V : variant) (s : state) : res state :=
-  res_bind (loadMemDB (s_data (st_head s))) (fun m =>
-    Ok (mkSt m (load_meta V (st_locked s) (s_meta (st_head s))) (st_head s) (st_parents s) (st_locked s))).
+Definition reload (V : variant) (s : state) : state :=
+  mkSt (loadMemDB (s_data (st_head s))) (load_meta V (st_locked s) (s_meta (st_head s)))
+       (mget k_json_schema (s_meta (st_head s))) (st_head s) (st_parents s) (st_locked s).
 
 (* ---------- histories ---------- *)
-Record kvitem := mkKV { kv_key : N; kv_body : list (bytes * json); kv_valid : bool; kv_time : bytes }.
+Record kvitem := mkKV { kv_key : N; kv_body : list (bytes * json); kv_vd : list (bytes * bool); kv_time : bytes }.
 
 Inductive op :=
-| OpPost (key : N) (body : list (bytes * json)) (valid : bool)
+| OpPost (key : N) (body : list (bytes * json)) (vd : list (bytes * bool))
          (user : bytes) (conds : list bytes) (replace : bool) (timeStr : bytes)
 | OpPostKVs (items : list kvitem) (user : bytes) (conds : list bytes) (replace : bool)
 | OpDelete (key : N)
@@ -415,7 +434,7 @@ Fixpoint putKVs (V : variant) (s : state) (items : list kvitem) (user : bytes) (
   match items with
   | [] => (s, Ok tt)
   | it :: r =>
-      match putData V s (kv_key it) (kv_body it) (kv_valid it) user conds replace (kv_time it) with
+      match putData V s (kv_key it) (kv_body it) (kv_vd it) user conds replace (kv_time it) with
       | Ok s' => putKVs V s' r user conds replace
       | Err => (s, Err)
       | Panic => (s, Panic)
@@ -427,28 +446,30 @@ Definition step (V : variant) (s : state) (o : op) : state * res unit :=
   let lift (r : res state) : state * res unit :=
     match r with Ok s' => (s', Ok tt) | Err => (s, Err) | Panic => (s, Panic) end in
   match o with
-  | OpPost key body valid user conds replace t => lift (putData V s key body valid user conds replace t)
+  | OpPost key body vd user conds replace t => lift (putData V s key body vd user conds replace t)
   | OpPostKVs items user conds replace =>
       if st_locked s then (s, Err) else putKVs V s items user conds replace
   | OpDelete key => lift (deleteData V s key)
   | OpMetaPost kind val =>
       if st_locked s || (3 <=? kind) then (s, Err)     (* three metadata endpoints: kinds 0, 1, 2 *)
       else (mkSt (st_mem s) (mset kind val (st_mmeta s))
+                 (if kind =? k_json_schema then Some val else st_compiled s)
                  (mkVS (s_data (st_head s)) (mset kind val (s_meta (st_head s))))
                  (st_parents s) (st_locked s), Ok tt)
   | OpMetaDelete kind =>
       if st_locked s || (3 <=? kind) then (s, Err)
       else (mkSt (st_mem s) (mdel kind (st_mmeta s))
+                 (if (kind =? k_json_schema) && v_schdel V then None else st_compiled s)
                  (mkVS (s_data (st_head s)) (mdel kind (s_meta (st_head s))))
                  (st_parents s) (st_locked s), Ok tt)
   | OpCommit =>
       if st_locked s then (s, Err)
-      else (mkSt (st_mem s) (st_mmeta s) (st_head s) (st_parents s) true, Ok tt)
+      else (mkSt (st_mem s) (st_mmeta s) (st_compiled s) (st_head s) (st_parents s) true, Ok tt)
   | OpNewVersion =>
       if st_locked s
-      then (mkSt (st_mem s) (st_mmeta s) (st_head s) (st_head s :: st_parents s) false, Ok tt)
+      then (mkSt (st_mem s) (st_mmeta s) (st_compiled s) (st_head s) (st_head s :: st_parents s) false, Ok tt)
       else (s, Err)
-  | OpReload => lift (reload V s)
+  | OpReload => (reload V s, Ok tt)
   end.
 
 (* a history; a panic (the request wedges the server: the memdb mutex stays locked) ends it *)
@@ -503,8 +524,7 @@ Inductive qval :=
 | QRe (m : bytes -> bool)
 | QExists (b : bool)
 | QMix (l : list (bytes + (bytes -> bool)))   (* []interface{} of strings and regexps *)
-| QFlts (l : list N)                   (* []interface{} of float64 (all elements floats) *)
-| QFltThen (l : list N)                (* float64s followed by a non-float: val.(float64) panics there *)
+| QFlts (l : list N)                   (* []interface{} whose first element is a number: its float64 elements *)
 | QOther.                              (* bool, object, ...: "illegal type" *)
 
 Definition two63 : Z := 9223372036854775808%Z.
@@ -521,14 +541,10 @@ Definition all_strs (l : list json) : option (list bytes) :=
   fold_right (fun v acc => match v, acc with JStr s, Some r => Some (s :: r) | _, _ => None end) (Some []) l.
 Definition is_num_or_flt (v : json) : bool := match v with JNum _ | JFlt _ => true | _ => false end.
 
-(* leading float64 elements of a []interface{} (every JSON number is a float64 there) *)
-Fixpoint lead_floats (l : list json) : list N * bool :=
-  match l with
-  | [] => ([], true)
-  | JFlt t :: r => let '(a, b) := lead_floats r in (t :: a, b)
-  | JNum z :: r => let '(a, b) := lead_floats r in (a, b)   (* integral float: matches no fieldFloatList entry *)
-  | _ :: _ => ([], false)
-  end.
+(* the non-integral float64 elements of a []interface{} (elements of another type are skipped;
+   an integral float matches no fieldFloatList entry) *)
+Definition float_elems (l : list json) : list N :=
+  fold_right (fun v acc => match v with JFlt t => t :: acc | _ => acc end) [] l.
 
 (* QueryJSON.UnmarshalJSON, on an already tokenised value *)
 Definition qparse (v : json) : qval :=
@@ -558,7 +574,7 @@ Definition qparse (v : json) : qval :=
               match l with
               | JStr _ :: _ => QMix (fold_right (fun v acc => match v with JStr s => inl s :: acc | _ => acc end) [] l)
               | JNum _ :: _ | JFlt _ :: _ =>
-                  let '(fl, allf) := lead_floats l in if allf then QFlts fl else QFltThen fl
+                  QFlts (float_elems l)
               | _ => QOther
               end
           end
@@ -600,7 +616,6 @@ Definition fieldMatch (q : qval) (fv : json) : res bool :=
         | QExists _ => Ok false
         | QMix l => Ok (existsb (fun e => match e with inl s => smem s fs | inr m => existsb m fs end) l)
         | QFlts l => Ok (existsb (fun t => fmem t ff) l)
-        | QFltThen l => if existsb (fun t => fmem t ff) l then Ok true else Panic
         | QOther => Ok false
         end
     end.
@@ -665,10 +680,14 @@ Inductive rreq :=
 | RFields
 | RFieldCounts
 | RKeyRange (a b : bytes)
-| RKeyRangeValues (a b : bytes) (fm : list bytes) (sh : shows)
-| RKeyValues (keys : list N) (fm : list bytes) (sh : shows)
+| RKeyRangeValues (a b : bytes) (fm : list bytes) (sh : shows) (enc : N)   (* enc: 0 json, 1 tar, 2 protobuf *)
+| RKeyValues (keys : list N) (fm : list bytes) (sh : shows) (enc : N)
 | RQuery (ql : list query) (onlyid : bool) (fm : list bytes) (sh : shows)
-| RMeta (kind : N).
+| RMeta (kind : N)
+| RFieldTimes
+| RHeadKey (id : N)              (* HEAD key/<id> *)
+| RHeadMeta (kind : N)           (* HEAD <schema kind> *)
+| RSchemaInForce.                (* which JSON schema validates POSTs (observed by probing) *)
 
 Inductive rres :=
 | XObj (o : option obj)            (* GET key: None = 404 *)
@@ -678,6 +697,9 @@ Inductive rres :=
 | XCounts (l : fcounts)            (* fields?counts=true: a JSON object *)
 | XKVs (l : list (N * obj))        (* keyrangevalues, keyvalues: a JSON object *)
 | XBytes (o : option bytes)        (* schema: None = 404 *)
+| XTimes (l : list (bytes * bytes)) (* fieldtimes: a JSON object *)
+| XKVOs (l : list (N * option obj)) (* keyvalues as tar / protobuf: every requested key, None = empty value *)
+| XBool (b : bool)                 (* HEAD: true = 200, false = 404 *)
 | XErr                             (* HTTP 400 *)
 | XPanic.
 
@@ -740,28 +762,31 @@ Definition get_objs (d : ndata) (keys : list N) (fm : list bytes) (sh : shows) :
   map snd (get_kvs d keys fm sh).
 
 
-(* --- the in-memory path (served when the version is the head of master) --- *)
-Definition read_mem (V : variant) (m : memdb) (mm : list (N * bytes)) (r : rreq) : rres :=
+(* --- the in-memory path: annotation endpoints served from a memdb --- *)
+Definition pos_counts (V : variant) (m : memdb) : fcounts :=
+  if v_zero V then filter (fun p => (0 <? snd p)%Z) (m_fields m) else m_fields m.
+Definition get_kvos (d : ndata) (keys : list N) (fm : list bytes) (sh : shows) : list (N * option obj) :=
+  map (fun k => (k, get_obj d k fm sh)) keys.
+
+Definition read_memdb (V : variant) (m : memdb) (r : rreq) : rres :=
   match r with
   | RKey id fm sh => XObj (get_obj (m_data m) id fm sh)
   | RKeys => XIds (m_ids m)
   | RAll fm sh => XObjs (objs_gt1 (map (fun p => selectFields (snd p) fm sh) (m_data m)))
-  | RFields =>
-      let fc := if v_zero V then filter (fun p => (0 <? snd p)%Z) (m_fields m) else m_fields m in
-      XNames (map (fun p => if (0 <? snd p)%Z then fst p else []) fc)
-  | RFieldCounts =>
-      XCounts (if v_zero V then filter (fun p => (0 <? snd p)%Z) (m_fields m) else m_fields m)
+  | RFields => XNames (map (fun p => if (0 <? snd p)%Z then fst p else []) (pos_counts V m))
+  | RFieldCounts => XCounts (pos_counts V m)
   | RKeyRange a b =>
       match parseKeyStr a, parseKeyStr b with
       | Some lo, Some hi => lift_res (mem_range (m_ids m) lo hi) XIds
       | _, _ => XErr
       end
-  | RKeyRangeValues a b fm sh =>
+  | RKeyRangeValues a b fm sh _ =>
       match parseKeyStr a, parseKeyStr b with
       | Some lo, Some hi => lift_res (mem_range (m_ids m) lo hi) (fun ids => XKVs (get_kvs (m_data m) ids fm sh))
       | _, _ => XErr
       end
-  | RKeyValues keys fm sh => XKVs (get_kvs (m_data m) keys fm sh)
+  | RKeyValues keys fm sh enc =>
+      if enc =? 0 then XKVs (get_kvs (m_data m) keys fm sh) else XKVOs (get_kvos (m_data m) keys fm sh)
   | RQuery ql onlyid fm sh =>
       match ql with
       | [] => XErr
@@ -774,7 +799,10 @@ Definition read_mem (V : variant) (m : memdb) (mm : list (N * bytes)) (r : rreq)
               if onlyid then XIds (map fst l) else XObjs (map (fun p => selectFields (snd p) fm sh) l))
         end
       end
-  | RMeta kind => if 3 <=? kind then XErr else XBytes (mget kind mm)
+  | RFieldTimes =>
+      XTimes (if v_ftime V && m_ftdirty m then ft_of (m_data m) else m_ftimes m)
+  | RHeadKey id => XBool (match nget id (m_data m) with Some _ => true | None => false end)
+  | RMeta _ | RHeadMeta _ | RSchemaInForce => XErr       (* not memdb endpoints *)
   end.
 
 (* --- the store path --- *)
@@ -795,14 +823,14 @@ Definition read_store (V : variant) (st : vstore) (r : rreq) : rres :=
           XIds (filter (fun k => (if v_range V then true else lex_in a b k) && (lo <=? k) && (k <=? hi)) (map fst d))
       | _, _ => XErr
       end
-  | RKeyRangeValues a b fm sh =>
+  | RKeyRangeValues a b fm sh _ =>
       match parseKeyStr a, parseKeyStr b with
       | Some lo, Some hi =>
           let recs := filter (fun p => if v_range V then (lo <=? fst p) && (fst p <=? hi) else lex_in a b (fst p)) d in
           XKVs (map (fun p => (fst p, selectFields (if v_sel V then snd p else removeReserved (snd p) sh) fm sh)) recs)
       | _, _ => XErr
       end
-  | RKeyValues keys fm sh => XKVs (get_kvs d keys fm sh)
+  | RKeyValues keys fm sh enc => if enc =? 0 then XKVs (get_kvs d keys fm sh) else XKVOs (get_kvos d keys fm sh)
   | RQuery ql onlyid fm sh =>
       match ql with
       | [] => XErr
@@ -815,16 +843,30 @@ Definition read_store (V : variant) (st : vstore) (r : rreq) : rres :=
         end
       end
   | RMeta kind => if 3 <=? kind then XErr else XBytes (mget kind (s_meta st))
+  | RFieldTimes => if v_ftime V then XTimes (ft_of d) else XErr     (* as shipped: no store path, HTTP 400 *)
+  | RHeadKey id => XBool (match nget id d with Some _ => true | None => false end)
+  | RHeadMeta kind => if 3 <=? kind then XErr
+                      else XBool (match mget kind (s_meta st) with Some _ => true | None => false end)
+  | RSchemaInForce => XBytes (mget k_json_schema (s_meta st))
   end.
 
-(* getMemDBbyVersion + ctx.Head(): version 0 is the head of master, n > 0 its n-th ancestor *)
+(* the head of master: annotations from its memdb, metadata from d.metadata / d.compiledSchema *)
+Definition read_mem (V : variant) (s : state) (r : rreq) : rres :=
+  match r with
+  | RMeta kind => if 3 <=? kind then XErr else XBytes (mget kind (st_mmeta s))
+  | RHeadMeta kind => if 3 <=? kind then XErr
+                      else XBool (match mget kind (st_mmeta s) with Some _ => true | None => false end)
+  | RSchemaInForce => XBytes (schema_in_force s)
+  | _ => read_memdb V (st_mem s) r
+  end.
+
+(* getMemDBbyVersion + ctx.Head(): version 0 is the head of master, n > 0 its n-th ancestor;
+   metadata come from memory only while the head is open *)
+Definition is_meta_req (r : rreq) : bool :=
+  match r with RMeta _ | RHeadMeta _ | RSchemaInForce => true | _ => false end.
 Definition read_version (V : variant) (s : state) (ver : nat) (r : rreq) : option rres :=
   match ver with
-  | O => Some (match r with
-               | RMeta _ => if st_locked s then read_store V (st_head s) r
-                            else read_mem V (st_mem s) (st_mmeta s) r
-               | _ => read_mem V (st_mem s) (st_mmeta s) r
-               end)
+  | O => Some (if is_meta_req r && st_locked s then read_store V (st_head s) r else read_mem V s r)
   | S n => option_map (fun st => read_store V st r) (nth_error (st_parents s) n)
   end.
 
@@ -843,5 +885,9 @@ Inductive rres_equiv : rres -> rres -> Prop :=
                  rres_equiv (XCounts a) (XCounts b)       (* the same map field -> count *)
 | EqKVs a b : Permutation a b -> rres_equiv (XKVs a) (XKVs b)
 | EqBytes o : rres_equiv (XBytes o) (XBytes o)
+| EqTimes a b : (forall f, @aget bytes bytes bytes_eqb f a = @aget bytes bytes bytes_eqb f b) ->
+                rres_equiv (XTimes a) (XTimes b)
+| EqKVOs a b : Permutation a b -> rres_equiv (XKVOs a) (XKVOs b)
+| EqBool b : rres_equiv (XBool b) (XBool b)
 | EqErr : rres_equiv XErr XErr
 | EqPanic : rres_equiv XPanic XPanic.
